@@ -311,6 +311,7 @@ func Generate(seed uint64, focus, arm string) *plan.Plan {
 	// entries (own stream again)
 	r3 := &rng{s: seed*0xA24BAED4963EE407 + 0x6f74746572}
 	p.Knobs.OtterBatch = []int{0, 1, 1, 4, 16}[r3.intn(5)]
+	p.Knobs.OtterSkewUs = []int64{300, 700, 20_000, 999_500}[r3.intn(4)]
 	return p
 }
 
